@@ -5,8 +5,10 @@ From Bexpr Require Import Base Strconv Ast Univ Eval Api Dump GoTables TableTie.
 Import ListNotations.
 Open Scope string_scope.
 
-(* getDefaultOptions *)
+(* the defaults: the composite literal of type options in options.go; a field it does not mention has Go's zero value *)
+Definition default_field (k zero : string) : string := match assoc k go_default_options with Some v => v | None => zero end.
 Lemma default_options :
-  go_default_options = [("withMaxExpressions", "0"); ("withTagName", "bexpr"); ("withUnknown", "nil")]
+  default_field "withMaxExpressions" "0" = "0" /\ default_field "withTagName" "" = "bexpr" /\ default_field "withUnknown" "nil" = "nil"
+  /\ default_field "withHookFn" "nil" = "nil" /\ default_field "withLocalVariables" "nil" = "nil"
   /\ o_max default_opts = 0%N /\ o_tag default_opts = "bexpr" /\ o_unknown default_opts = None.
 Proof. repeat split; reflexivity. Qed.
